@@ -111,8 +111,52 @@ fn pipelines(ctx: &mut Ctx) {
     }
 }
 
+/// programs at and just beyond the limits of the bytecode format (u8 arities, u16 indices), and
+/// programs the toolchain must refuse: both build profiles must take the same decision
+pub fn limit_programs() -> Vec<String> {
+    let mut v = vec![];
+    for n in [254usize, 255, 256, 257] {
+        let params: Vec<String> = (0..n).map(|i| format!("p{}", i)).collect();
+        let args: Vec<String> = (0..n).map(|i| format!("{}", i % 7)).collect();
+        v.push(format!("function many({}) -> p0 + p{};\nprint(\"~\\n\", many({}))", params.join(", "), n - 1, args.join(", ")));
+        v.push(format!("let o = object begin function many({}) -> p{} end;\nprint(\"~\\n\", o.many({}))", params.join(", "), n - 1, args.join(", ")));
+        v.push(format!("print(\"{}\\n\", {})", vec!["~"; n].join(" "), args.join(", ")));
+    }
+    for n in [255usize, 256, 300] {
+        let lets: Vec<String> = (0..n).map(|i| format!("let v{} = {}", i, i)).collect();
+        v.push(format!("function locals() -> begin {}; v{} end;\nprint(\"~\\n\", locals())", lets.join("; "), n - 1));
+        let fields: Vec<String> = (0..n).map(|i| format!("let f{} = {}", i, i)).collect();
+        v.push(format!("let o = object begin {} end;\nprint(\"~\\n\", o.f{})", fields.join("; "), n - 1));
+    }
+    v.push("function first(a, a) -> a;\nprint(\"~\\n\", first(1, 2))".to_string());
+    v.push("let o = object begin function m(this) -> this end;\nprint(\"~\\n\", o.m(1))".to_string());
+    v.push("let o = object begin let a = 1; let a = 2 end;\nprint(\"~\\n\", o)".to_string());
+    v.push("let o = object begin function m() -> 1; function m() -> 2 end;\nprint(\"~\\n\", o.m())".to_string());
+    v.push("function f() -> 1;\nfunction f() -> 2;\nprint(\"~\\n\", f())".to_string());
+    v.push("let x = 1;\nlet x = 2;\nprint(\"~\\n\", x)".to_string());
+    v.push("begin let x = 1; let x = 2; print(\"~\\n\", x) end".to_string());
+    v.push("print(\"~\\n\", 2147483647 + 1 - -2147483648 * 3)".to_string());
+    v
+}
+
+/// like `case`, but a refusal (parse/compile/serialize error) is a result too, and must be the same everywhere
+fn limit_case(ctx: &mut Ctx, text: &str) {
+    ctx.describe(text);
+    let outcome = || -> String {
+        match once(text) { Some((b, ok, out)) => format!("{:016x} {} {:016x}", fnv(&b), ok, fnv(out.as_bytes())), None => "refused".to_string() }
+    };
+    let first = outcome();
+    ctx.count("programs", 1);
+    let again = outcome();
+    if first != again { ctx.violation("determinism/limit-program-differs-between-runs", "a program at a format limit gave different results in two consecutive runs", json!({"text": text.chars().take(300).collect::<String>(), "first": first, "again": again})) }
+    ctx.fingerprint(&format!("{:016x}", fnv(text.as_bytes())), &first);
+    ctx.nontrivial(text.as_bytes());
+}
+
 pub fn run(ctx: &mut Ctx) {
     let debug = cfg!(debug_assertions);
+    ctx.stage("programs at the limits of the format");
+    for s in limit_programs() { if ctx.take().is_some() { limit_case(ctx, &s) } }
     ctx.stage("CORPUS + wide programs");
     let root = std::env::var("VERIF_REPO").unwrap_or("/repo".to_string());
     for p in corpus_files(&root) {
